@@ -73,8 +73,12 @@ def evaluate(d, n):
         res["demo_patched"] = rc1
         res["demo_clean"] = rc0
         res["demo_out"] = out1[-300:]
-        with ThreadPoolExecutor(max_workers=10) as ex:
-            checks = list(ex.map(run_check, [(p, tmp) for p in PROPS]))
+        # EVAL_SKIP=C14,... leaves out expensive checks unless the change targets them
+        target = os.path.basename(d.rstrip("/"))[:3].upper()
+        skip = set(x for x in os.environ.get("EVAL_SKIP", "").split(",") if x and x != target)
+        res["checks_not_run"] = sorted(skip)
+        with ThreadPoolExecutor(max_workers=int(os.environ.get("EVAL_WORKERS", "10"))) as ex:
+            checks = list(ex.map(run_check, [(p, tmp) for p in PROPS if p not in skip]))
         res["fired"] = dict((p, rules) for p, rc, rules, err in checks if rc == 1)
         res["errors"] = dict((p, err) for p, rc, rules, err in checks if rc == 2)
         return res
